@@ -54,10 +54,28 @@ pub fn explicit_endpoint(transport: &str) -> String {
     }
 }
 
+/// A socket path no other process, past or present, has used: process ids wrap around
+/// (pid_max is 32768 here) and children that are killed leave their files behind, so the
+/// pid alone would sooner or later name a stale file ("Address already in use").
 pub fn ipc_path() -> String {
+    static START: std::sync::OnceLock<u64> = std::sync::OnceLock::new();
     let dir = "/verif/.work/ipc";
-    let _ = std::fs::create_dir_all(dir);
-    format!("{dir}/{}-{}.sock", std::process::id(), IPC_SEQ.fetch_add(1, Ordering::SeqCst))
+    let start = *START.get_or_init(|| {
+        let _ = std::fs::create_dir_all(dir);
+        // leftovers of processes long gone (no run of a check lasts hours)
+        if let Ok(rd) = std::fs::read_dir(dir) {
+            for e in rd.flatten() {
+                let old = e.metadata().ok().and_then(|m| m.modified().ok()).and_then(|t| t.elapsed().ok()).map(|d| d.as_secs() > 3 * 3600).unwrap_or(false);
+                if old {
+                    let _ = std::fs::remove_file(e.path());
+                }
+            }
+        }
+        std::time::SystemTime::now().duration_since(std::time::UNIX_EPOCH).map(|d| d.as_nanos() as u64).unwrap_or(0)
+    });
+    let path = format!("{dir}/{}-{:x}-{}.sock", std::process::id(), start & 0xffff_ffff_ffff, IPC_SEQ.fetch_add(1, Ordering::SeqCst));
+    let _ = std::fs::remove_file(&path);
+    path
 }
 
 /// Endpoint text to bind for a transport name.
